@@ -17,7 +17,7 @@ import zlib
 
 from ..lib import cbuild
 from ..lib.common import REPO, MachineryError
-from . import loaddrv, pipedrv, snapfile, tapedrv, z80len
+from . import loaddrv, pipedrv, replaylib, snapfile, tapedrv, z80len
 
 BASE = 0x9000          # where the loop images live (>= 0x8000: tap2sna's default in_min_addr)
 EXIT = 0x7000          # where time-out exits / returns lead (outside every loop region)
@@ -185,6 +185,7 @@ def run_scenario(sc):
             obs.append({'impl': '%s/%s' % (impl, cfgname), 'r': [int(v) for v in sim.registers][:30], 'tp': tp1, 'wr': wr, 'exc': exc,
                         'hits': sum(int(a.hits) for a in accs) + int(tracer.dec_a_jr_hits) + int(tracer.dec_a_jp_hits)})
     case['obs'] = obs
+    case['sc'] = sc                 # the whole input (program, registers, tape, configurations): --replay runs it again
     return case
 
 
@@ -732,6 +733,7 @@ def custom_worker(args):
     os.makedirs(sub, exist_ok=True)
     out = []
     for idx in indices:
+        st = replaylib.rnd_state(rnd)
         g = gen_custom(rnd, accs, idx)
         full = idx in fullset
         if full:
@@ -745,7 +747,8 @@ def custom_worker(args):
         runs, dropped = run_matrix(tape, fin, cfgs, loads, sub, tag)
         expect = [d for _, d in loads]
         case = {'key': 'custom/%s/dly%02X/%s%s' % (g['acc'], g['dly'], '+'.join(g['kinds']), '/decjp' if g['decjp'] else ''), 'start': fin,
-                'expect': expect, 'runs': runs, 'dropped': dropped, 'gen': g, 'tape': os.path.basename(tape), 'names': names, 'wall': round(time.time() - t0, 2)}
+                'expect': expect, 'runs': runs, 'dropped': dropped, 'gen': g, 'tape': os.path.basename(tape), 'names': names, 'wall': round(time.time() - t0, 2),
+                'regen': dict(st, idx=idx, full=int(full))}
         out.append(case)
         for f in os.listdir(sub):
             if f.startswith(tag + '.'):
@@ -761,6 +764,7 @@ def c12_worker(args):
     os.makedirs(sub, exist_ok=True)
     out = []
     for k in range(n):
+        st = replaylib.rnd_state(rnd)
         g = loaddrv.gen_case(rnd, seed * 1000 + k)
         if g['size'] > 7000:
             g['size'] = 6912
@@ -780,7 +784,7 @@ def c12_worker(args):
         expect = [list(runs[0]['data'][0])] if runs else []
         out.append({'key': 'c12/' + ref['key'], 'start': g['start'], 'expect': expect, 'runs': runs, 'dropped': dropped,
                     'gen': {k2: g[k2] for k2 in ('m128', 'size', 'org', 'start', 'stack', 'clear', 'opts', 'fmt')}, 'tape': os.path.basename(tape),
-                    'names': 'rom', 'wall': round(time.time() - t0, 2)})
+                    'names': 'rom', 'wall': round(time.time() - t0, 2), 'regen': dict(st, idx=seed * 1000 + k)})
         for f in os.listdir(sub):
             if f.startswith('p%d.' % k) or f.startswith('p%d_' % k):
                 try:
@@ -788,6 +792,63 @@ def c12_worker(args):
                 except OSError:
                     pass
     return out
+
+
+# ---------------------------------------------------------------- --replay of one tape
+def parse_cfg(name):
+    """cfg_name() backwards."""
+    cfg = {}
+    if name != 'default':
+        for kv in name.split(';'):
+            k, _, v = kv.partition('=')
+            cfg[k] = int(v) if v.lstrip('-').isdigit() else v
+    return cfg
+
+
+def replay_tape(wd, rp):
+    """Make the tape of a recorded end-to-end case again (generator state -> same program, blocks and timings), run tap2sna of
+    the current tree under the recorded configurations (default, class leader, failing one) -> SnapGroups case."""
+    _skool()
+    os.makedirs(wd, exist_ok=True)
+    cfgs = []
+    for u in rp['runs']:
+        c = parse_cfg(u['cfg'])
+        if c not in cfgs:
+            cfgs.append(c)
+    if rp['key'].startswith('probe/'):
+        fn = 'probe_' + rp['key'].split('/')[1].replace('-', '_')
+        if fn not in globals():
+            raise MachineryError('unknown probe %s' % rp['key'])
+        return globals()[fn](wd)
+    rg = rp['regen']
+    rnd = replaylib.rnd_restore(rg)
+    if rp['key'].startswith('custom/'):
+        accs = export_accelerators()
+        g = gen_custom(rnd, accs, rg['idx'])
+        if rg['full']:
+            g['lens'] = [min(x, 40) for x in g['lens']]
+        if g != rp['gen']:
+            raise MachineryError('the replay file was written by a different version of the C13 generator (or accelerator table): it now makes %s, '
+                                 'recorded %s' % (g, rp['gen']))
+        prog, org, fin, blocks, loads = build_custom(rom48(), accs, g, rnd)
+        tag = 'c%d' % rg['idx']          # as in the recorded run: bin2tap names the program on the tape after its input file
+        tape = write_custom_tape(wd, tag, prog, org, fin, blocks, g)
+        runs, dropped = run_matrix(tape, fin, cfgs, loads, wd, tag)
+        return {'key': rp['key'], 'start': fin, 'expect': [d for _, d in loads], 'runs': runs, 'dropped': dropped, 'gen': g}
+    g = loaddrv.gen_case(rnd, rg['idx'])
+    if g['size'] > 7000:
+        g['size'] = 6912
+        g['data'] = g['data'][:6912]
+    if {k: g[k] for k in rp['gen']} != rp['gen']:
+        raise MachineryError('the replay file was written by a different version of the C12 generator')
+    k = rg['idx'] % 1000                 # the scratch file number of the recorded run (bin2tap puts the file name on the tape)
+    ref = loaddrv.run_case(wd, k, g, rnd, keep_tape=True)
+    if ref['err'] or ref['loaderr'] or ref['pc'] != g['start']:
+        # the tape does not load in the reference configuration any more: that is C12's business, nothing to compare here
+        return {'key': rp['key'], 'skipped': ref['err'] or ref['loaderr'] or 'pc'}
+    scratch = (g['stack'] - 14, g['stack']) if g['clear'] < 0 else None
+    runs, dropped = run_matrix(ref['tape'], g['start'], cfgs, [(g['org'], g['data'])], wd, 'p%d' % k, bool(g['m128']), scratch)
+    return {'key': rp['key'], 'start': g['start'], 'expect': [list(runs[0]['data'][0])] if runs else [], 'runs': runs, 'dropped': dropped}
 
 
 # ---------------------------------------------------------------- isolated probes (real CLI in a subprocess)
